@@ -619,4 +619,240 @@ theorem sameErrs_updateAt_addImplicit (b : Bool) (e : Entry) (he : SlotEmpty b e
     refine ⟨rfl, rfl, rfl, ?_⟩
     simp only [Entry.out, Entry.allErrorsL, h.all]
 
+/-! ### `FixChoice` -/
+
+theorem fixChoice_mk (d : EData) (c i o : List Entry) : fixChoice (.mk d c i o) =
+    .mk d (if wraps (.mk d c i o) then (c.map fixChoice).map wrap1 else c.map fixChoice)
+      (i.map fixChoice) (o.map fixChoice) := by
+  rw [fixChoice, fixChoiceL_eq_map, fixChoiceL_eq_map, fixChoiceL_eq_map, wrapCases_eq_map]
+  rfl
+
+theorem wrap1_isRpc (x : Entry) (h : x.d.kind ≠ .case_) : (wrap1 x).d.isRpc = false := by
+  unfold wrap1; simp only [kind_beq, h, decide_false, Bool.false_eq_true, if_false]; rfl
+
+theorem wrap1_mk (x : Entry) (h : x.d.kind ≠ .case_) :
+    wrap1 x = .mk { name := x.d.name, kind := .case_, hasDir := true, config := x.d.config, node := x.d.node, nodeMod := x.d.nodeMod, nodeKw := "case" } [x] [] [] := by
+  unfold wrap1; simp only [kind_beq, h, decide_false, Bool.false_eq_true, if_false]
+
+/-- **Every rpc / action node of the fixed tree is the image of a node of the original tree**: the
+nodes `FixChoice` inserts are plain cases. -/
+theorem fix_preimage : ∀ (p : Path) (root0 e : Entry), (fixChoice root0).getAt p = some e → e.d.isRpc = true →
+    ∃ p0 e0, root0.getAt p0 = some e0 ∧ liftPath root0 p0 = p ∧ e = fixChoice e0 ∧
+      (∀ k, Step.child k ∈ p0 → Step.child k ∈ p)
+  | [], root0, e, h, _ => by
+    simp only [Entry.getAt, Option.some.injEq] at h
+    exact ⟨[], root0, rfl, liftPath_nil _, h.symm, fun k hk => hk⟩
+  | .input :: r, root0, e, h, hr => by
+    rw [getAt_cons, fixChoice_next_input] at h
+    cases hn : next root0 .input with
+    | none => simp [hn] at h
+    | some x =>
+      simp only [hn, Option.map_some, Option.bind_some] at h
+      obtain ⟨p0, e0, h1, h2, h3, h4⟩ := fix_preimage r x e h hr
+      refine ⟨.input :: p0, e0, by rw [getAt_cons, hn]; exact h1, by simp only [liftPath_input, hn, h2], h3, ?_⟩
+      intro k hk
+      simp only [List.mem_cons] at hk
+      rcases hk with hk | hk
+      · cases hk
+      · exact List.mem_cons_of_mem _ (h4 k hk)
+  | .output :: r, root0, e, h, hr => by
+    rw [getAt_cons, fixChoice_next_output] at h
+    cases hn : next root0 .output with
+    | none => simp [hn] at h
+    | some x =>
+      simp only [hn, Option.map_some, Option.bind_some] at h
+      obtain ⟨p0, e0, h1, h2, h3, h4⟩ := fix_preimage r x e h hr
+      refine ⟨.output :: p0, e0, by rw [getAt_cons, hn]; exact h1, by simp only [liftPath_output, hn, h2], h3, ?_⟩
+      intro k hk
+      simp only [List.mem_cons] at hk
+      rcases hk with hk | hk
+      · cases hk
+      · exact List.mem_cons_of_mem _ (h4 k hk)
+  | .child k :: r, root0, e, h, hr => by
+    rw [getAt_cons, next_child, fixChoice_child?] at h
+    cases hn : root0.child? k with
+    | none => simp [hn] at h
+    | some x =>
+      simp only [hn, Option.map_some, Option.bind_some] at h
+      have hxk : x.name = k := child?_name root0 x k hn
+      by_cases hw : (wraps root0 && x.d.kind != .case_) = true
+      · -- an inserted case stands between the choice and its member
+        have hw' := hw
+        simp only [Bool.and_eq_true, bne_iff_ne, ne_eq] at hw'
+        obtain ⟨hw1, hw2⟩ := hw'
+        have hk2 : (fixChoice x).d.kind ≠ .case_ := by rw [fixChoice_d]; exact hw2
+        simp only [hw1, if_true] at h
+        cases r with
+        | nil =>
+          simp only [Entry.getAt, Option.some.injEq] at h
+          rw [← h, wrap1_isRpc _ hk2] at hr; cases hr
+        | cons s' r' =>
+          rw [getAt_cons, wrap1_mk _ hk2] at h
+          cases s' with
+          | input => simp [next, Entry.inp] at h
+          | output => simp [next, Entry.out] at h
+          | child k' =>
+            simp only [next, Entry.child?, Entry.dir, List.find?_cons, List.find?_nil] at h
+            have hfn : (fixChoice x).name = k := by rw [fixChoice_name]; exact hxk
+            by_cases hkk : ((fixChoice x).name == k') = true
+            · have hk' : k' = k := (eq_of_beq hkk).symm.trans hfn
+              simp only [hkk, Option.bind_some] at h
+              obtain ⟨p0, e0, h1, h2, h3, h4⟩ := fix_preimage r' x e h hr
+              refine ⟨.child k :: p0, e0, by rw [getAt_cons, next_child, hn]; exact h1, ?_, h3, ?_⟩
+              · rw [liftPath_child, hn]; simp only [hw, if_true, h2, hk']; rfl
+              · intro k2 hk
+                simp only [List.mem_cons] at hk
+                rcases hk with hk | hk
+                · rw [hk]; simp
+                · exact List.mem_cons_of_mem _ (List.mem_cons_of_mem _ (h4 k2 hk))
+            · simp [hkk] at h
+      · have hnode : (if wraps root0 = true then wrap1 (fixChoice x) else fixChoice x) = fixChoice x := by
+          by_cases hw1 : wraps root0 = true
+          · simp only [hw1, if_true]
+            apply wrap1_of_case
+            rw [fixChoice_d]
+            simp only [hw1, Bool.true_and, bne_iff_ne, ne_eq, Decidable.not_not] at hw
+            exact hw
+          · simp [hw1]
+        rw [hnode] at h
+        obtain ⟨p0, e0, h1, h2, h3, h4⟩ := fix_preimage r x e h hr
+        refine ⟨.child k :: p0, e0, by rw [getAt_cons, next_child, hn]; exact h1, ?_, h3, ?_⟩
+        · rw [liftPath_child, hn]; simp only [hw, if_false, h2]; rfl
+        · intro k' hk
+          simp only [List.mem_cons] at hk
+          rcases hk with hk | hk
+          · rw [hk]; simp
+          · exact List.mem_cons_of_mem _ (h4 k' hk)
+termination_by p => p.length
+decreasing_by all_goals (first | (simp_wf; done) | (simp_wf; omega) | (simp_wf; subst_vars; simp only [List.length_cons]; omega))
+
+theorem fixChoice_implicitIO (parent : Entry) (b : Bool) : fixChoice (implicitIO parent b) = implicitIO parent b := by
+  unfold implicitIO
+  rw [fixChoice_mk]
+  simp
+
+theorem fixChoice_addImplicit (b : Bool) (e : Entry) : addImplicit b (fixChoice e) = fixChoice (addImplicit b e) := by
+  cases e with
+  | mk d c i o =>
+    cases b with
+    | true =>
+      show addImplicit true (fixChoice (.mk d c i o)) = fixChoice (.mk d c [implicitIO (.mk d c i o) true] o)
+      rw [fixChoice_mk, fixChoice_mk]
+      simp only [List.map_cons, List.map_nil, fixChoice_implicitIO]
+      rfl
+    | false =>
+      show addImplicit false (fixChoice (.mk d c i o)) = fixChoice (.mk d c i [implicitIO (.mk d c i o) false])
+      rw [fixChoice_mk, fixChoice_mk]
+      simp only [List.map_cons, List.map_nil, fixChoice_implicitIO]
+      rfl
+
+theorem map_split_update (pre post : List Entry) (y : Entry) (k : String) (hf G : Entry → Entry)
+    (hname : ∀ x, (hf x).name = x.name)
+    (hpre : ∀ x ∈ pre, (x.name == k) = false) (hpost : ∀ x ∈ post, (x.name == k) = false) (hy : y.name = k) :
+    ((pre ++ y :: post).map hf).map (fun x => if x.name == k then G x else x) =
+      pre.map hf ++ G (hf y) :: post.map hf := by
+  rw [List.map_append, List.map_cons]
+  apply Tree.map_if_split
+  · intro x hx
+    simp only [List.mem_map] at hx
+    obtain ⟨z, hz, rfl⟩ := hx
+    rw [hname]; exact hpre z hz
+  · intro x hx
+    simp only [List.mem_map] at hx
+    obtain ⟨z, hz, rfl⟩ := hx
+    rw [hname]; exact hpost z hz
+  · rw [hname]; exact hy
+
+theorem updateAt_d_addImplicit (b : Bool) (y : Entry) (q : Path) : (y.updateAt q (addImplicit b)).d = y.d := by
+  cases q with
+  | nil => rw [updateAt_nil]; exact ConfigNsDev.addImplicit_d b y
+  | cons s q => exact updateAt_d_cons y s q _
+
+/-- **Creating an absent input / output commutes with `FixChoice`** (at the translated path), under `U`
+for a proper existing path. -/
+theorem fix_updateAt_addImplicit (b : Bool) : ∀ (p0 : Path) (root0 e0 : Entry), U root0 → PathOK p0 →
+    root0.getAt p0 = some e0 →
+    (fixChoice root0).updateAt (liftPath root0 p0) (addImplicit b) = fixChoice (root0.updateAt p0 (addImplicit b)) := by
+  intro p0
+  induction p0 with
+  | nil =>
+    intro root0 e0 _ _ _
+    rw [liftPath_nil, updateAt_nil, updateAt_nil]
+    exact fixChoice_addImplicit b root0
+  | cons s p1 ih =>
+    intro root0 e0 hu hp hg
+    cases root0 with
+    | mk d c i o =>
+      cases s with
+      | input =>
+        obtain ⟨y, hi, hgy, hupd⟩ := Tree.updateAt_input d c i o p1 (addImplicit b) e0 hu hg
+        subst hi
+        have huy : U y := ((U_mk _ _ _ _).1 hu).2.2.1 y (by simp)
+        rw [hupd, liftPath_input]
+        simp only [next, Entry.inp, List.head?_cons]
+        rw [fixChoice_mk, fixChoice_mk]
+        simp only [Entry.updateAt, List.map_cons, List.map_nil]
+        rw [ih y e0 huy hp.tail hgy]
+        rfl
+      | output =>
+        obtain ⟨y, ho, hgy, hupd⟩ := Tree.updateAt_output d c i o p1 (addImplicit b) e0 hu hg
+        subst ho
+        have huy : U y := ((U_mk _ _ _ _).1 hu).2.2.2 y (by simp)
+        rw [hupd, liftPath_output]
+        simp only [next, Entry.out, List.head?_cons]
+        rw [fixChoice_mk, fixChoice_mk]
+        simp only [Entry.updateAt, List.map_cons, List.map_nil]
+        rw [ih y e0 huy hp.tail hgy]
+        rfl
+      | child k =>
+        obtain ⟨pre, y, post, hc, hy, hgy, hpre, hpost, hupd⟩ :=
+          Tree.updateAt_child d c i o k p1 (addImplicit b) e0 hu (hp k (by simp)) hg
+        subst hc
+        have huy : U y := ((U_mk _ _ _ _).1 hu).2.1 y (by simp)
+        have hch : (Entry.mk d (pre ++ y :: post) i o).child? k = some y := by
+          simp only [Entry.getAt] at hg
+          cases hcc : (Entry.mk d (pre ++ y :: post) i o).child? k with
+          | none => simp [hcc] at hg
+          | some z =>
+            -- the first child named `k` is `y`
+            simp only [Entry.child?, Entry.dir] at hcc
+            rw [List.find?_append] at hcc
+            have : pre.find? (fun x => x.name == k) = none := by
+              rw [List.find?_eq_none]; intro x hx; simp [hpre x hx]
+            rw [this] at hcc
+            simp only [Option.none_or, List.find?_cons, hy, beq_self_eq_true] at hcc
+            exact congrArg some (Option.some.inj hcc).symm ▸ rfl
+        have ihy := ih y e0 huy hp.tail hgy
+        have hyd : (y.updateAt p1 (addImplicit b)).d = y.d := updateAt_d_addImplicit b y p1
+        rw [hupd, liftPath_child, hch]
+        simp only []
+        rw [fixChoice_mk, fixChoice_mk]
+        have hw : wraps (.mk d (pre ++ y.updateAt p1 (addImplicit b) :: post) i o) = wraps (.mk d (pre ++ y :: post) i o) := rfl
+        rw [hw]
+        by_cases hwr : wraps (.mk d (pre ++ y :: post) i o) = true
+        · simp only [hwr, if_true, Bool.true_and, List.map_map]
+          by_cases hyk : y.d.kind = .case_
+          · -- a case member is not wrapped
+            have hne : (y.d.kind != .case_) = false := by simp [hyk]
+            simp only [hne, Bool.false_eq_true, if_false, List.singleton_append, Entry.updateAt]
+            rw [map_split_update pre post y k (wrap1 ∘ fixChoice) _
+              (fun x => by simp [Function.comp, wrap1_name, fixChoice_name]) hpre hpost hy]
+            simp only [Function.comp, List.map_append, List.map_cons]
+            rw [wrap1_of_case (fixChoice y) (by rw [fixChoice_d]; exact hyk), ihy,
+              wrap1_of_case (fixChoice (y.updateAt p1 (addImplicit b))) (by rw [fixChoice_d, hyd]; exact hyk)]
+          · have hne : (y.d.kind != .case_) = true := by simp [hyk]
+            simp only [hne, if_true, List.cons_append, List.nil_append, Entry.updateAt]
+            rw [map_split_update pre post y k (wrap1 ∘ fixChoice) _
+              (fun x => by simp [Function.comp, wrap1_name, fixChoice_name]) hpre hpost hy]
+            simp only [Function.comp, List.map_append, List.map_cons]
+            have hk1 : (fixChoice y).d.kind ≠ .case_ := by rw [fixChoice_d]; exact hyk
+            have hk2 : (fixChoice (y.updateAt p1 (addImplicit b))).d.kind ≠ .case_ := by rw [fixChoice_d, hyd]; exact hyk
+            rw [wrap1_mk _ hk1, wrap1_mk _ hk2]
+            have hfn : ((fixChoice y).name == k) = true := by rw [fixChoice_name, hy]; simp
+            simp only [Entry.updateAt, List.map_cons, List.map_nil, hfn, if_true, ihy, fixChoice_d, hyd]
+        · have hwf : wraps (.mk d (pre ++ y :: post) i o) = false := by simpa using hwr
+          simp only [hwf, Bool.false_eq_true, if_false, Bool.false_and, List.singleton_append, Entry.updateAt]
+          rw [map_split_update pre post y k fixChoice _ fixChoice_name hpre hpost hy, ihy]
+          simp only [List.map_append, List.map_cons]
+
 end Goyang.Lemmas.ConfigNsComm
